@@ -130,6 +130,12 @@ def check_refs(name, text, by_name, result, all_results):
                 and all(refs.object_name(w[1], by_name[w[1]]) not in (None, '') for w in named) \
                 and all(all_results.get(w[1]) is not None and all_results[w[1]][0] == 'svc' for w in named):
             fails.append(f'the unit it is rejected for ({named[0][1]}) exists, converts and has a name: {result[2]!r}')
+        # … whatever name the message carries: every file this unit refers to exists, converts and has a name, so nothing it asks for can be
+        # "not found" (a resolved object name is a podman name — it is not looked up again, however it ends)
+        if not fails and not missing and wanted and result[1] in ('InvalidResourceNameIn', 'SourceNotFound', 'ImageNotFound') \
+                and all(w[1] in by_name and refs.object_name(w[1], by_name[w[1]]) not in (None, '') for w in wanted) \
+                and all(all_results.get(w[1]) is not None and all_results[w[1]][0] == 'svc' for w in wanted):
+            fails.append(f'rejected with {result[1]} although every unit it refers to ({sorted(set(w[1] for w in wanted))}) exists, converts and has a name: {result[2]!r}')
         return fails   # failed for another reason (not this property)
     if result[0] != 'svc':
         return fails
@@ -168,6 +174,20 @@ def check_refs(name, text, by_name, result, all_results):
 def oracle(ctx):
     res = ctx.res
     sets = getattr(ctx, '_sets', None) or gen_sets(ctx, 900)
+    # directed: the object name a unit creates ends like a Quadlet file of some type (with and without a unit of that very name in the set)
+    sets = list(sets)
+    for suf in ('.image', '.build', '.volume', '.network', '.container'):
+        for twin in (False, True):
+            fs = {'b.build': f'[Build]\nImageTag=localhost/base{suf}\nFile=/f\n', 'i.image': f'[Image]\nImage=quay.io/x/y\nImageTag=localhost/pulled{suf}\n',
+                  'v.volume': f'[Volume]\nVolumeName=data{suf}\n', 'n.network': f'[Network]\nNetworkName=front{suf}\n',
+                  'c1.container': '[Container]\nImage=b.build\nVolume=v.volume:/d\nNetwork=n.network\n',
+                  'c2.container': '[Container]\nImage=i.image\nMount=type=volume,source=v.volume,dst=/m\n',
+                  'iv.volume': '[Volume]\nDriver=image\nImage=b.build\n'}
+            if twin and suf in ('.image', '.volume', '.network'):
+                fs['base' + suf if suf == '.image' else ('data' + suf if suf == '.volume' else 'front' + suf)] = \
+                    {'.image': '[Image]\nImage=quay.io/other/os\n', '.volume': '[Volume]\nVolumeName=other\n', '.network': '[Network]\nNetworkName=other\n'}[suf]
+            names = list(fs)
+            sets.append((names, fs, G.sorted_order(ctx.rnd, names, ctx.tables)))
     ops = [op_of(n, f, o) for n, f, o in sets]
     io = ctx.impl(ops)
     for (names, fs, order), op, a in zip(sets, ops, io):
